@@ -9,7 +9,8 @@
    [fanout_full] below); that the fuelled loops never run out of fuel is [no_fuel_exhaustion]. *)
 From Coq Require Import List Arith Bool ZArith.
 From GoPdf.Base Require Import Res.
-From GoPdf.C16 Require Import PageTree PageTreeInst PTStruct PTMain PTReaders PTFuel PTFuel2 PTPageNum.
+From GoPdf.C17 Require Import KTDepths.
+From GoPdf.C16 Require Import PageTree PageTreeInst PageTreePre PTStruct PTMain PTReaders PTFuel PTFuel2 PTPageNum PTNoPanic.
 Import ListNotations.
 
 (* the leaves of the written root, left to right, are the pages in document order; an operation
@@ -45,17 +46,53 @@ Theorem fanout_partial : forall D old choose choose_rot, 1 <= D ->
 Proof. exact (fun D old c cr HD => fanout_partial_l D old c cr HD). Qed.
 Print Assumptions fanout_partial.
 
-(* the full statement - the panic branch of mergeNodes (2 <= b-a <= maxDegree) and the index
-   expressions of merge/collapse are unreachable - is FALSE of the code as it is: *)
+(* the full statement: the panic branch of mergeNodes (2 <= b-a <= maxDegree) and the index
+   expressions of merge/collapse are unreachable.  See [fanout_refuted_before_F47] for the code as it
+   was; for the code as it is the statement is not proved yet (exercised under recover()). *)
 Definition fanout_full : Prop := forall D old choose choose_rot, 2 <= D ->
   forall prog, run D old choose choose_rot prog <> Err Panic.
 
-(* 3968 pages (15 subtrees of depth 2, 8 of depth 1), NewRange, 9 pages, Close: merge() leaves 16 nodes
-   of depth 2 followed by one page and collapse asks mergeNodes to merge that single node.
-   Confirmed on the real pagetree.Writer ("invalid subtree node range 16, 17"); finding in findings/C16.json *)
-Theorem fanout_refuted : exists prog, NoDup (append_ids prog) /\ run_model false prog = Err Panic.
-Proof. exact fanout_refuted_l. Qed.
-Print Assumptions fanout_refuted.
+(* BEFORE fix F47 (PageTreePre.merge_pre = merge() without the line added by commit 16000eb) the
+   statement was false: the tail of 3968 pages appended to the root (15 subtrees of depth 2, 8 of depth 1)
+   merged with the 9 pages of a range gives 16 nodes of depth 2 followed by ONE page, on which collapse
+   panics in mergeNodes.  Confirmed on the real writer (regress/revert-F47.diff). *)
+Theorem fanout_refuted_before_F47 :
+  exists t nx, merge_pre max_degree false choose_most choose_rot_most wit_a wit_b 0 = Ok (t, nx) /\
+    depths t = repeat 2 16 ++ [0] /\
+    collapse max_degree false choose_most choose_rot_most (S (length t)) t nx = Err Panic.
+Proof. exact merge_pre_panics_l. Qed.
+Print Assumptions fanout_refuted_before_F47.
+
+(* with the fix the same tails merge and collapse, and the program that produces them runs *)
+Example witness_fixed :
+  (exists t nx r, merge max_degree false choose_most choose_rot_most wit_a wit_b 0 = Ok (t, nx) /\
+     collapse max_degree false choose_most choose_rot_most (S (length t)) t nx = Ok r) /\
+  match run_model false panic_witness with
+  | Ok out => match o_root out with Some root => Nat.eqb (length (leaves root)) (15 * 256 + 8 * 16 + 9) | None => false end
+  | Err _ => false
+  end = true.
+Proof. split; [exact merge_fixed_ok_l|exact panic_witness_runs]. Qed.
+
+(* proved towards fanout_full (code after F47): under the invariant of a tail - depths weakly decrease,
+   fewer than D nodes per depth - AppendPageDict's balancing loop never panics and restores the
+   invariant, and collapse never panics (its start++ loop always stops at a run boundary that leaves
+   at least two nodes to merge) *)
+Theorem tail_ops_never_panic : forall D old choose choose_rot, 2 <= D ->
+  forall tail id a next, Inv D (depths tail) ->
+  (exists out nx, append_tail D old choose choose_rot tail id a next = Ok (out, nx) /\ Inv D (depths out)) /\
+  (exists out nx, collapse D old choose choose_rot (S (length tail)) tail next = Ok (out, nx)).
+Proof.
+  exact (fun D old c cr HD tail id a next HI =>
+           conj (append_tail_ok D old c cr HD tail id a next HI)
+                (collapse_ok D old c cr HD (S (length tail)) tail next (le_n _) (Inv_LI D _ HI))).
+Qed.
+Print Assumptions tail_ops_never_panic.
+
+(* hence every program on the root range alone runs to the end: no panic, no error *)
+Theorem no_panic_root_only : forall D old choose choose_rot, 2 <= D ->
+  forall prog, Forall root_only prog -> exists out, run D old choose choose_rot prog = Ok out.
+Proof. exact run_root_only_ok. Qed.
+Print Assumptions no_panic_root_only.
 
 (* hoisting never changes a page's effective MediaBox, CropBox, Rotate (modulo its default 0),
    AA or Resources: what Iterator.All reports is what the page was given *)
